@@ -1112,11 +1112,21 @@ func c16Compile(w *World, r *Report) {
 			}
 			// only flags of the command whose RunE calls Compile: the receiver is compileCmd.Flags()
 			name, _ := constString(args[2])
-			if g, ok := args[1].(*ssa.Global); ok && name != "" {
+			target := ""
+			switch a := args[1].(type) {
+			case *ssa.Global:
+				target = a.Name()
+			case *ssa.FieldAddr:
+				if g, ok := a.X.(*ssa.Global); ok {
+					_, fname, _, _ := fieldOf(a)
+					target = g.Name() + "." + fname
+				}
+			}
+			if target != "" && name != "" {
 				if fc, ok := args[0].(*ssa.Call); ok && len(fc.Call.Args) > 0 {
 					if ld, ok := fc.Call.Args[0].(*ssa.UnOp); ok {
 						if cg, ok := ld.X.(*ssa.Global); ok {
-							flagOf[cg.Name()+"|"+g.Name()] = name
+							flagOf[cg.Name()+"|"+target] = name
 						}
 					}
 				}
@@ -1393,7 +1403,38 @@ func c16Writer(w *World, r *Report, fn *ssa.Function) {
 	if write.call.Common().StaticCallee().String() != "os.WriteFile" {
 		h := write.call.Common().Args[0]
 		okH := false
-		if e, ok := stripIdentity(h).(*ssa.Extract); ok && e.Tuple == create.call.(ssa.Value) && e.Index == 0 {
+		var isCreated func(v ssa.Value, depth int) bool
+		isCreated = func(v ssa.Value, depth int) bool {
+			e, ok := stripIdentity(resolveParam(v, write.bs)).(*ssa.Extract)
+			if !ok || e.Index != 0 || depth > 3 {
+				return false
+			}
+			if e.Tuple == create.call.(ssa.Value) {
+				return true
+			}
+			// the file comes out of a private helper of the writer that returns the created file
+			c, ok := e.Tuple.(*ssa.Call)
+			if !ok || c.Call.StaticCallee() == nil || !ws[c.Call.StaticCallee()] {
+				return false
+			}
+			h := c.Call.StaticCallee()
+			any := false
+			for _, b := range h.Blocks {
+				ret, ok := b.Instrs[len(b.Instrs)-1].(*ssa.Return)
+				if !ok || len(ret.Results) == 0 {
+					continue
+				}
+				if k, isConst := ret.Results[0].(*ssa.Const); isConst && k.IsNil() {
+					continue // error return
+				}
+				if !isCreated(ret.Results[0], depth+1) {
+					return false
+				}
+				any = true
+			}
+			return any
+		}
+		if isCreated(h, 0) {
 			okH = true
 		}
 		if okH {
